@@ -769,7 +769,44 @@ def _pre_handler_ok(W, who):
         cur().oblige('call-pre[%s: handler_ok: %s]' % (who, n), f)
 
 
-def handler_stubs(W):
+def _arith_slice(pc):
+    """the facts of a path condition that mention neither quantifiers / lambdas nor arrays (counters, bounds, oracle answers)"""
+    from pyvc.core import _has_quantifier
+    out = []
+    for p in pc:
+        if _has_quantifier(p):
+            continue
+        seen, stack, arr = set(), [p], False
+        while stack and not arr:
+            x = stack.pop()
+            if x.get_id() in seen:
+                continue
+            seen.add(x.get_id())
+            if z3.is_array_sort(x):
+                arr = True
+            stack.extend(x.children())
+        if not arr:
+            out.append(p)
+    return out
+
+
+def second_call(vc, what):
+    """iterate's contract is ONE wait_next and ONE update per call (infer re-checks `finished` between batches).  A second call on
+    a path is reported where it happens, over the arithmetic slice of the path condition (a short ground query; the slice is an
+    over-approximation, so the refutation counts only with a native replay), and the path ends there: a receive loop driven by
+    the oracle would otherwise fork without bound."""
+    from pyvc.core import PathEnd
+    saved = vc.pc
+    vc.pc = _arith_slice(saved)
+    try:
+        vc.oblige('call-pre[%s: at most one per iterate]' % what, z3.BoolVal(False),
+                  tags=('overapprox:arithmetic slice of the path condition (handler facts dropped)',))
+    finally:
+        vc.pc = saved
+    raise PathEnd()
+
+
+def handler_stubs(W, single_wait=False):
     """submit / wait_next / has_ready / cancel_pending / reset as their contracts (eff_*), proved by the contracts above"""
 
     def submit(self_, batch=None):
@@ -784,6 +821,8 @@ def handler_stubs(W):
 
     def wait_next(self_):
         vc = cur()
+        if single_wait and W.events('wait_next'):
+            second_call(vc, 'wait_next')
         vc.libcall('stub:wait_next', ())
         _pre_handler_ok(W, 'wait_next')
         vc.oblige('call-pre[wait_next: a batch is pending (it raises ValueError otherwise)]', W.hi > W.lo)
@@ -890,13 +929,15 @@ def iterate_post(kind, V0, S0, V, S, upd):
     return out
 
 
-def update_stub(kind, W, S, static_objective=False):
+def update_stub(kind, W, S, static_objective=False, single=False):
     """Rejection.update (C01: BaseUpdate counts the batch, _update_objective_n_batches may move the objective; the handler is not
     touched) / SMC.update (contract SmcUpdate below: additionally, when the round is over, cancel_pending and - unless it was
     the last round - a new generator epoch starting at the number of batches consumed)"""
 
     def update(self_, batch, batch_index):
         vc = cur()
+        if single and [e for e in S.log if e[0] == 'update']:
+            second_call(vc, 'update')
         vc.libcall('stub:update', ())
         S.log.append(('update', T(batch), T(batch_index), W.snap(), S.snap()))
         vc.oblige('call-pre[update: batch_index = number of batches consumed so far]', T(batch_index) == S.nb)
@@ -947,9 +988,9 @@ class SamplerContract(Contract):
     fin = 4
     fin_range = 7
 
-    def base(self, vc, kind, static_objective=False):
+    def base(self, vc, kind, static_objective=False, single_wait=False):
         W = World(vc)
-        real_handler(vc, W, stubs=handler_stubs(W))
+        real_handler(vc, W, stubs=handler_stubs(W, single_wait))
         M = vc.fresh_int('max_parallel_batches', size=True)
         S = Sampler(vc, kind, M)
         return W, S
@@ -967,9 +1008,9 @@ class Iterate(SamplerContract):
         self.label = kind
 
     def setup(self, vc):
-        W, S = self.base(vc, self.kind)
+        W, S = self.base(vc, self.kind, single_wait=True)
         prep = inline(vc, PI + 'prepare_new_batch') if self.kind == 'rejection' else prepare_stub(self.kind, W, S)
-        me = sampler_object(vc, self.kind, W, S, dict(prepare_new_batch=prep, update=update_stub(self.kind, W, S)))
+        me = sampler_object(vc, self.kind, W, S, dict(prepare_new_batch=prep, update=update_stub(self.kind, W, S, single=True)))
         return NS(W=W, S=S, me=me), (me,), {}
 
     def requires(self, s):
